@@ -68,6 +68,13 @@ def named_schedules(seed):
     add("close-overtakes-all-data", "udp", [["w", 3000], ["close"]], [["rall"]],
         faults=[F("C", "data", -1, 1, "delay", ms=60)])
     add("lose-close-request", "udp", [["w", 5000], ["close"]], [["rall"]], faults=[F("C", "close", -1, 1, "drop")])
+    # the close request never arrives and a data segment before it is lost too: the reader is released only by the idle timeout
+    # (60 s) and must not take that for the end of the stream
+    for k in (2, 4):
+        add("lose-data-%d-and-every-close-request" % k, "udp", [["w", 5000], ["close"]], [["rall"]],
+            faults=[F("C", "data", k, 1, "drop"), F("C", "close", -1, 0, "drop")])
+    add("server-closes-lose-data-and-every-close-request", "udp", [["w", 1], ["rall"]], [["w", 6000], ["close"]],
+        faults=[F("S", "data", 2, 1, "drop"), F("S", "close", -1, 0, "drop")])
     add("duplicate-close-and-data", "udp", [["w", 5000], ["close"]], [["rall"]],
         faults=[F("C", "any", -1, 0, "dup", ms=20)])
     add("server-closes-lose-data", "udp", [["w", 1], ["rall"]], [["w", 6000], ["close"]],
